@@ -69,6 +69,9 @@ var c04Logs = &c04Signal{
 				for i := 0; i < s[0]; i++ {
 					*ctr++
 					lr := sl.LogRecords().AppendEmpty()
+					if fat == c04Blank {
+						continue
+					}
 					lr.Body().SetStr(fmt.Sprintf("i%d", *ctr))
 					lr.SetSeverityText("sev")
 					if first && fat > 0 {
@@ -131,6 +134,9 @@ var c04Traces = &c04Signal{
 				for i := 0; i < s[0]; i++ {
 					*ctr++
 					sp := ss.Spans().AppendEmpty()
+					if fat == c04Blank {
+						continue
+					}
 					sp.SetName(fmt.Sprintf("i%d", *ctr))
 					sp.Events().AppendEmpty().SetName("ev")
 					if first && fat > 0 {
@@ -183,6 +189,9 @@ var c04Metrics = &c04Signal{
 		md := pmetric.NewMetrics()
 		first := true
 		mark := func(a pcommon.Map) {
+			if fat == c04Blank {
+				return
+			}
 			*ctr++
 			a.PutStr("id", fmt.Sprintf("i%d", *ctr))
 			if first && fat > 0 {
@@ -211,7 +220,9 @@ var c04Metrics = &c04Signal{
 						g := m.SetEmptyGauge()
 						for i := 0; i < p; i++ {
 							dp := g.DataPoints().AppendEmpty()
-							dp.SetIntValue(7)
+							if fat != c04Blank {
+								dp.SetIntValue(7)
+							}
 							mark(dp.Attributes())
 						}
 					case 1:
@@ -220,7 +231,9 @@ var c04Metrics = &c04Signal{
 						g.SetAggregationTemporality(pmetric.AggregationTemporalityDelta)
 						for i := 0; i < p; i++ {
 							dp := g.DataPoints().AppendEmpty()
-							dp.SetDoubleValue(1.5)
+							if fat != c04Blank {
+								dp.SetDoubleValue(1.5)
+							}
 							mark(dp.Attributes())
 						}
 					case 2:
@@ -228,7 +241,9 @@ var c04Metrics = &c04Signal{
 						g.SetAggregationTemporality(pmetric.AggregationTemporalityCumulative)
 						for i := 0; i < p; i++ {
 							dp := g.DataPoints().AppendEmpty()
-							dp.SetCount(3)
+							if fat != c04Blank {
+								dp.SetCount(3)
+							}
 							mark(dp.Attributes())
 						}
 					case 3:
@@ -236,14 +251,18 @@ var c04Metrics = &c04Signal{
 						g.SetAggregationTemporality(pmetric.AggregationTemporalityDelta)
 						for i := 0; i < p; i++ {
 							dp := g.DataPoints().AppendEmpty()
-							dp.SetCount(4)
+							if fat != c04Blank {
+								dp.SetCount(4)
+							}
 							mark(dp.Attributes())
 						}
 					case 4:
 						g := m.SetEmptySummary()
 						for i := 0; i < p; i++ {
 							dp := g.DataPoints().AppendEmpty()
-							dp.SetCount(5)
+							if fat != c04Blank {
+								dp.SetCount(5)
+							}
 							mark(dp.Attributes())
 						}
 					}
